@@ -292,6 +292,58 @@ let do_raff () =
    | AffError -> pr "%s ERR\n" id
    | AffOk w -> pr "%s OK %s\n" id (hxs w))
 
+(* ---------- CLI: the whole front end (coq/CliMain.v: cli_main) on an argument vector and a file system ---------- *)
+let str_of_string (s : string) : n list = List.init (String.length s) (fun i -> n_of_int (Char.code s.[i]))
+let int_of_n = function N0 -> 0 | Npos p -> int_of_pos p
+let string_of_str (l : n list) : string = String.concat "" (List.map (fun b -> String.make 1 (Char.chr (int_of_n b))) l)
+let string_of_hex h = String.concat "" (List.map (fun b -> String.make 1 (Char.chr b)) (bytes_of_hex h))
+(* std::stoi: leading blanks, optional sign, at least one digit, the rest ignored; out of the range of int -> throws *)
+let c_stoi (s : string) : int option =
+  let n = String.length s in
+  let i = ref 0 in
+  while !i < n && is_space_c s.[!i] do incr i done;
+  let neg = !i < n && s.[!i] = '-' in
+  if !i < n && (s.[!i] = '-' || s.[!i] = '+') then incr i;
+  let st = !i in
+  let v = ref 0 and ovf = ref false in
+  while !i < n && s.[!i] >= '0' && s.[!i] <= '9' do
+    v := !v * 10 + Char.code s.[!i] - 48; if !v > 4294967296 then ovf := true; incr i done;
+  if !i = st || !ovf then None
+  else let x = if neg then - !v else !v in if x > 2147483647 || x < -2147483648 then None else Some x
+let words = [| "?"; "a="; "#"; "Max"; "likelihood="; "N_real="; "Number"; "of"; "realization"; "="; "Maximum"; "Likelihood"; "Duration"; "(s)";
+               "Seed"; "real"; "num_iters"; "term_reason"; "L2" |]
+let g6 (x : Float64.t) : string = let y = fl x in if y <> y then "nan" else Printf.sprintf "%.6g" y
+(* static_cast<int>(double) as x86-64 performs it (cvttsd2si: the indefinite value for NaN and out-of-range) *)
+let int_cast (x : Float64.t) : string =
+  let y = fl x in if y <> y || y >= 2147483648.0 || y <= -2147483649.0 then "-2147483648" else string_of_int (int_of_float y)
+let string_of_z = function Z0 -> "0" | Zpos p -> string_of_n (Npos p) | Zneg p -> "-" ^ string_of_n (Npos p)
+let do_cli () =
+  let id = "C " ^ tok () in
+  let now = int () in
+  let argv = clist (fun () -> string_of_hex (let t = tok () in if t = "-" then "" else t)) in
+  let files = clist (fun () -> let nm = string_of_hex (tok ()) in let t = tok () in (nm, if t = "-" then "" else string_of_hex t)) in
+  let fs nm = match List.assoc_opt (string_of_str nm) files with Some c -> Some (str_of_string c) | None -> None in
+  let tokenize (b : n list) =
+    let content = string_of_str b in
+    let lines = List.filter (fun x -> x <> "") (String.split_on_char '\n' content) in
+    List.map (fun l -> List.map str_of_string (tokens_of_line l)) lines in
+  let on_s f = fun t -> f (string_of_str t) in
+  let r = cli_main ar (on_s (fun s -> match c_stoi s with Some i -> Some (z_of_int i) | None -> None)) fs (z_of_int now) tokenize
+            (on_s (fun t -> t = "#")) (on_s decimal_number)
+            (on_s (fun t -> if all_digits t && String.length t < 9 then Some (nat_of_int (int_of_string t)) else None))
+            (fun x -> str_of_string (g6 x)) (fun x -> str_of_string (int_cast x)) (fun k -> str_of_string (string_of_int (int_of_nat k)))
+            (fun k -> str_of_string (string_of_n k)) (fun z -> str_of_string (string_of_z z))
+            (fun k -> str_of_string words.(int_of_nat k)) (fun rs -> str_of_string (reason_name rs))
+            (List.map str_of_string argv) in
+  match r with
+  | CliThrow st -> pr "%s status ABORT %d\n" id (int_of_nat st)
+  | CliOk (outdir, fl_) ->
+      pr "%s status OK\n%s outdir %s\n" id id (string_of_str outdir);
+      List.iter (fun (nm, rows) ->
+        let rows = List.filter (fun r -> r <> []) rows in
+        pr "%s file %s %d\n" id (string_of_str nm) (List.length rows);
+        List.iteri (fun i row -> pr "%s row %s %d : %s\n" id (string_of_str nm) i (String.concat " " (List.map string_of_str row))) rows) fl_
+
 let () =
   let ic = open_in Sys.argv.(1) in
   let oc = open_out Sys.argv.(2) in
@@ -314,6 +366,7 @@ let () =
          | "RNG" -> do_rng ()
          | "PARSE" -> do_parse ()
          | "RAFF" -> do_raff ()
+         | "CLI" -> do_cli ()
          | "#" -> ()
          | c -> failwith ("unknown component " ^ c))
       with e -> pr "DRIVER-ERROR %s in: %s\n" (Printexc.to_string e) (String.sub line 0 (min 60 (String.length line))));
